@@ -341,6 +341,9 @@ func TestVerifC04(t *testing.T) {
 			c04Restore(rep, rn, filepath.Join(dir, fmt.Sprintf("c04-restore-%d", k)), base*104729+int64(k))
 		}
 		for k := 0; k < n/3+1; k++ {
+			c04Supersede(rep, rn, filepath.Join(dir, fmt.Sprintf("c04-supersede-%d", k)), base*49979687+int64(k))
+		}
+		for k := 0; k < n/3+1; k++ {
 			c04Compact(rep, rn, filepath.Join(dir, fmt.Sprintf("c04-compact-%d", k)), base*32452843+int64(k))
 		}
 		for k := 0; k < n/3+1; k++ {
@@ -562,6 +565,96 @@ func c04Compact(rep *verifrep.R, rn *raft.Raft, dir string, seed int64) {
 	rep.Cases(len(got))
 	rep.Case(fmt.Sprintf("compact|ahead=%v|deleted=%s", ahead, []string{"all", "part"}[b2i(del < nOld)]))
 	rep.Obs("compaction-under-open-request.messages-read", len(got))
+}
+
+// c04Supersede: a client that reconnects twice while its earlier connections are still open on
+// the server side (a half-open connection, an impatient bridge). Only the newest connection may
+// be served: whatever is added afterwards must arrive once, on the third connection, and the
+// second must be ended rather than fed the same messages.
+func c04Supersede(rep *verifrep.R, rn *raft.Raft, dir string, seed int64) {
+	os.MkdirAll(dir, 0755)
+	defer os.RemoveAll(dir)
+	rng := rand.New(rand.NewSource(seed))
+	p := c04Plan{Seed: seed, Replicas: 1}
+	nOld, nNew := 2+rng.Intn(4), 2+rng.Intn(4)
+	id := uint64(10)
+	for k := 0; k < nOld+nNew; k++ {
+		p.Batches = append(p.Batches, c04Batch{Id: id, Replies: []c04Reply{{Reply: 1, Mine: true, Data: fmt.Sprintf("R%d.1", id)}, {Reply: 2, Mine: true, Data: fmt.Sprintf("R%d.2", id)}}})
+		id += 1 + uint64(rng.Intn(3))
+	}
+	p.Batches = append(p.Batches, c04Batch{Id: id + 3, Replies: []c04Reply{{Reply: 1, Mine: true, Data: "SENTINEL"}}})
+	o1, err := outputstream.NewOutputStream(dir)
+	if err != nil {
+		panic(err)
+	}
+	i := ircserver.NewIRCServer("robustirc.net", time.Now())
+	i.CreateSession(robust.Id{Id: c04Session}, c04Auth, time.Now())
+	h := NewHTTP(i, rn, nil, o1, nil, "robustirc.net", "pw", dir, "c04", true, 3)
+	mux := http.NewServeMux()
+	mux.HandleFunc("/robustirc/v1/", h.DispatchPublic)
+	r1 := &c04Replica{out: o1, srv: httptest.NewServer(mux)}
+	r1.addUpTo(&p, nOld)
+	defer func() {
+		r1.srv.CloseClientConnections()
+		r1.srv.Close()
+		time.Sleep(350 * time.Millisecond)
+		o1.InterruptGetNext()
+		time.Sleep(20 * time.Millisecond)
+		o1.Close()
+	}()
+	last := p.Batches[nOld-1]
+	lastseen := fmt.Sprintf("%d.2", last.Id)
+	type res struct {
+		got   []c04Got
+		ended bool
+	}
+	open := func(idle time.Duration) chan res {
+		ch := make(chan res, 1)
+		go func() {
+			g, _, ended := c04ReadEOF(r1.srv.URL, lastseen, 0, idle, nil)
+			ch <- res{g, ended}
+		}()
+		return ch
+	}
+	// the first connection is superseded by the second and returns; the second is still open
+	// when the third arrives
+	c1 := open(4 * time.Second)
+	time.Sleep(time.Duration(60+rng.Intn(60)) * time.Millisecond)
+	c2 := open(4 * time.Second)
+	r1res := <-c1
+	time.Sleep(time.Duration(60+rng.Intn(60)) * time.Millisecond)
+	c3 := open(4 * time.Second)
+	time.Sleep(time.Duration(60+rng.Intn(60)) * time.Millisecond)
+	for k := nOld + 1; k <= len(p.Batches); k++ {
+		time.Sleep(time.Duration(rng.Intn(4)) * time.Millisecond)
+		r1.addUpTo(&p, k)
+	}
+	r2res, r3res := <-c2, <-c3
+	var expected []c04Got
+	for _, b := range p.Batches[nOld:] {
+		for _, r := range b.Replies {
+			expected = append(expected, c04Got{b.Id, r.Reply, r.Data})
+		}
+	}
+	w := map[string]interface{}{"seed": seed, "supersede": true}
+	if len(r1res.got) > 0 {
+		rep.Violation("C04", "duplicate", fmt.Sprintf("three connections in a row with lastseen=%s: the first (superseded before anything was added) received %d messages", lastseen, len(r1res.got)), w)
+	}
+	if len(r2res.got) > 0 {
+		rep.Violation("C04", "duplicate", fmt.Sprintf("three connections in a row with lastseen=%s: the second connection, superseded by the third before anything was added, was still served %d messages (first %d.%d) that the third connection received as well (%d)", lastseen, len(r2res.got), r2res.got[0].Id, r2res.got[0].Reply, len(r3res.got)), w)
+	}
+	for k, g := range r3res.got {
+		if k >= len(expected) || g != expected[k] {
+			rep.Violation("C04", "gap", fmt.Sprintf("three connections in a row with lastseen=%s: message #%d on the newest connection is %d.%d", lastseen, k, g.Id, g.Reply), w)
+			return
+		}
+	}
+	if len(r3res.got) != len(expected) {
+		rep.Violation("C04", "never-delivered", fmt.Sprintf("three connections in a row with lastseen=%s: the newest connection received %d of %d messages", lastseen, len(r3res.got), len(expected)), w)
+	}
+	rep.Cases(len(r3res.got))
+	rep.Case(fmt.Sprintf("supersede|second-ended=%v", r2res.ended))
+	rep.Obs("three-connections-in-a-row.messages-read", len(r3res.got))
 }
 
 // c04Closing: the session of a client that has read everything is ended (QUIT by DELETE,
